@@ -50,8 +50,31 @@ def json_fields_ok(ds, raw_body):
                     bad.append("stop %d is not stop #%d of the path" % (nid, seq))
                 co = s.get("nodeCoordinates")
                 if co is not None:
-                    if abs(co[0] - (-73.0 + nid * 1e-5)) > 2e-6 or abs(co[1] - 45.0) > 2e-6:
+                    if abs(co[0] - l3.node_lon_e6(ds, nid) / 1e6) > 2e-6 or abs(co[1] - 45.0) > 2e-6:
                         bad.append("coordinates of stop %d" % nid)
+    return bad
+
+
+def access_fields_ok(ds, raw_body):
+    """C16: every entry of an accessibility map names a stop of the DATASET with its own name, code and coordinates"""
+    try:
+        j = json.loads(raw_body.decode("utf-8"))
+    except Exception:
+        return None
+    if j.get("status") != "success" or "nodes" not in j.get("result", {}):
+        return None
+    bad = []
+    for n in j["result"]["nodes"]:
+        nid = l3.id_of_uuid(n.get("nodeUuid", ""))
+        if nid not in ds.nodes or n.get("nodeUuid") != l3.uuid_of(l3.K_NODE, nid):
+            bad.append("unknown stop %s" % n.get("nodeUuid"))
+            continue
+        for key, want in (("nodeName", "n%d" % nid), ("nodeCode", "%d" % nid)):
+            if n.get(key) != want:
+                bad.append("%s %r (expected %r)" % (key, n.get(key), want))
+        co = n.get("nodeCoordinates")
+        if not (isinstance(co, list) and len(co) == 2 and abs(co[0] - l3.node_lon_e6(ds, nid) / 1e6) <= 2e-6 and abs(co[1] - 45.0) <= 2e-6):
+            bad.append("coordinates of stop %d: %r" % (nid, co))
     return bad
 
 
@@ -118,6 +141,10 @@ def main_c16(pid, tier, seed, replay_path=None):
             if bad:
                 fails.append(("answer names wrong objects of the dataset: " + ", ".join(sorted(set(bad))[:4]), r))
             nontriv.add(r["op"] + r["case"])
+        if r["idx"] < len(raws) and r["impl"].startswith("access ok"):
+            bad = access_fields_ok(ds, raws[r["idx"]][1])
+            if bad:
+                fails.append(("accessibility map names wrong objects of the dataset: " + ", ".join(sorted(set(bad))[:4]), r))
     rc, viol = 0, []
     if dead:
         path = cl.write_replay_file(pid, dead[0], "server process died while serving this dataset")
